@@ -56,6 +56,8 @@ pub struct Session {
     pub exhaustive: Vec<String>,
     pub notes: Vec<String>,
     pub track_distinct: bool,
+    /// while set, operations are not flushed (a stateful block must reach the model in one piece)
+    pub hold: bool,
     batch: usize,
 }
 
@@ -115,7 +117,15 @@ impl Session {
             exhaustive: vec![],
             notes: vec![],
             track_distinct: true,
+            hold: false,
             batch: 100_000,
+        }
+    }
+
+    pub fn release(&mut self) {
+        self.hold = false;
+        if self.pending.len() >= self.batch {
+            self.flush();
         }
     }
 
@@ -157,7 +167,7 @@ impl Session {
                 .push(format!("{} => {}", op, wire::fields_to_string(&expect)));
         }
         self.pending.push(Pending { op, expect });
-        if self.pending.len() >= self.batch {
+        if !self.hold && self.pending.len() >= self.batch {
             self.flush();
         }
     }
